@@ -1524,7 +1524,16 @@ func (d *Driver) FamJSON(perType int) {
 		}
 	}
 	// nil messages and values that are not pointers
-	for name, v := range map[string]interface{}{"nil": nil, "typed-nil": (*timestamppb.Timestamp)(nil)} {
+	nils := map[string]interface{}{"nil": nil, "typed-nil": (*timestamppb.Timestamp)(nil), "typed-nil-gogo-plain": (*gogodesc.DescriptorProto)(nil)}
+	seenFl := map[string]bool{}
+	for _, ti := range d.Types {
+		if !seenFl[ti.Flavour] && ti.Set == "default" {
+			seenFl[ti.Flavour] = true
+			// a typed nil pointer of a fast-marshal type of each flavour
+			nils["typed-nil-"+ti.Flavour] = reflect.Zero(reflect.TypeOf(ti.New())).Interface()
+		}
+	}
+	for name, v := range nils {
 		e := &DEv{C: "json", Dir: "marshal", Fl: "none", Key: name, Nilmsg: 1}
 		guard(&e.St, &e.Note, func() {
 			out, err := csproto.JSONMarshaler(v).MarshalJSON()
@@ -1537,7 +1546,8 @@ func (d *Driver) FamJSON(perType int) {
 		})
 		d.emitD(e)
 	}
-	for name, v := range map[string]interface{}{"nil": nil, "typed-nil": (*timestamppb.Timestamp)(nil), "struct-value": notAMessage{1}, "int": 7} {
+	nils["struct-value"], nils["int"] = notAMessage{1}, 7
+	for name, v := range nils {
 		e := &DEv{C: "json", Dir: "unmarshal", Fl: "none", Key: name, Nilmsg: 1}
 		guard(&e.St, &e.Note, func() {
 			if err := csproto.JSONUnmarshaler(v).UnmarshalJSON([]byte("{}")); err != nil {
